@@ -22,19 +22,21 @@
    Canon(m)   DECLARATIVE: what the statement says the text must state.
    ReadMol(r) what a GROMACS-format reader understands from the records.
    Property:  ReadMol(Write(m)) = Canon(m)   (TLC, every m of the bounded domain)   and, bound to the code,
-              ReadMol(records of the real text) = Canon(m)   (Judge, evaluated by TLC on recorded runs).      *)
-EXTENDS Integers, Sequences, FiniteSets, SequencesExt, TLC
+              ReadMol(records of the real text) = Canon(m)   (Judge, evaluated by TLC on recorded runs).
+
+   Records, ReadStep / ReadMol and the prologue reader live in ItpText; the second reader of the text (the
+   repository's read_itp) and the agreement of the two readings in ItpAgree.  A molecule may carry three more fields,
+   used by JudgeFile only: moltype, nrexcl (tokens) and defs = Seq([name, val : Seq(token)]) (meta 'define').
+   Node keys are opaque: integers, or strings when a molecule has keys that are not integers (all keys of ONE molecule
+   are of one kind).                                                                                              *)
+EXTENDS ItpAgree
 
 NOAID == -1
 INF   == 1073741824
 
-\* Range(f) comes from the community module Functions (via SequencesExt)
-Rec(k, s, a, p) == [k |-> k, s |-> s, a |-> a, p |-> p]
-NoGuard == <<>>
-
 (* alphabetical tables: Python compares these strings with <; TLC cannot, so the order is stated here *)
 SecNames   == <<"angles", "bonds", "cmap", "constraints", "dihedrals", "exclusions", "impropers", "pairs",
-                "position_restraints", "settles", "virtual_sites2", "virtual_sites3", "virtual_sitesn">>
+                "position_restraints", "settles", "virtual_sites1", "virtual_sites2", "virtual_sites3", "virtual_sitesn">>
 MacroNames == <<"A", "B", "POSRES">>
 GroupNames == <<"", "g", "h">>
 IndexIn(seq, x) == CHOOSE i \in DOMAIN seq : seq[i] = x
@@ -113,35 +115,6 @@ Write(m) ==
      \o Concat([i \in DOMAIN order |-> SectionRecs(m.inter, order[i], corr)])
 
 -----------------------------------------------------------------------------
-(* READER semantics (GROMACS): directives nest, a section header does not close them; [ atoms ] line =
-   nr type resnr residue atom cgnr [charge [mass]] *)
-
-ReadStep(st, r) ==
-  CASE r.k = "section" -> [st EXCEPT !.sec = r.s]
-    [] r.k \in {"ifdef", "ifndef"} -> [st EXCEPT !.stack = Append(@, [kind |-> r.k, name |-> r.s])]
-    [] r.k = "endif" -> IF st.stack = <<>> THEN [st EXCEPT !.bad = TRUE]
-                        ELSE [st EXCEPT !.stack = SubSeq(@, 1, Len(@) - 1)]
-    [] r.k = "atom" -> IF st.sec # "atoms" \/ st.stack # <<>> \/ Len(r.p) < 5 \/ Len(r.p) > 7
-                       THEN [st EXCEPT !.bad = TRUE]
-                       ELSE [st EXCEPT !.nrs = Append(@, r.a[1]),
-                                       !.atoms = Append(@, SubSeq(r.p, 1, 5)
-                                                           \o <<IF Len(r.p) >= 6 THEN r.p[6] ELSE "">>
-                                                           \o <<IF Len(r.p) >= 7 THEN r.p[7] ELSE "">>)]
-    [] r.k = "inter" -> [st EXCEPT !.inters = Append(@, [sec |-> st.sec, a |-> r.a, p |-> r.p, g |-> st.stack])]
-    [] r.k \in {"comment", "define"} -> st
-    [] OTHER -> [st EXCEPT !.bad = TRUE]          \* #else, malformed lines: never written
-
-BagOf(s) == [x \in Range(s) |-> Cardinality({i \in DOMAIN s : s[i] = x})]
-
-ReadMol(recs) ==
-  LET st == FoldLeft(ReadStep, [sec |-> "", stack |-> <<>>, nrs |-> <<>>, atoms |-> <<>>, inters |-> <<>>, bad |-> FALSE],
-                     recs)
-  IN [atoms    |-> st.atoms,
-      numbered |-> st.nrs = [i \in DOMAIN st.nrs |-> i],               \* 1..N without gaps, in order
-      inters   |-> BagOf(st.inters),
-      bad      |-> st.bad \/ st.stack # <<>>]
-
------------------------------------------------------------------------------
 (* DECLARATIVE: the molecule the text must state *)
 
 \* position i is written before position j
@@ -179,8 +152,7 @@ Strip(b, F(_)) == BagOf([i \in DOMAIN b |-> F(b[i])])
 Judge(m, recs) ==
   LET r == ReadMol(recs)
       c == Canon(m)
-      rI == FoldLeft(ReadStep, [sec |-> "", stack |-> <<>>, nrs |-> <<>>, atoms |-> <<>>, inters |-> <<>>, bad |-> FALSE],
-                     recs).inters
+      rI == ReadAll(recs).inters
       cI == LET idx == IndexOfKey(m.nodes) IN [i \in DOMAIN m.inter |-> CanonInter(m.inter[i], idx)]
       NoG(x)  == [sec |-> x.sec, a |-> x.a, p |-> x.p]
       Shape(x) == [sec |-> x.sec, n |-> Len(x.a), p |-> x.p, g |-> x.g]
@@ -198,6 +170,24 @@ Judge(m, recs) ==
      ELSE IF Strip(rI, Shape) = Strip(cI, Shape) THEN "interaction-attached-to-different-atoms"
      ELSE "interaction-section-or-parameters-differ"
 
+(* the whole file: records of the sections, the [ moleculetype ] line, the prologue of guarded defines *)
+CanonDefs(defs) == [defs |-> BagOf([i \in DOMAIN defs |->
+                                      [name |-> defs[i].name, val |-> defs[i].val,
+                                       g |-> <<[kind |-> "ifndef", name |-> defs[i].name]>>]]),
+                    bad |-> FALSE]
+JudgeFile(m, f) ==
+  LET j == Judge(m, f.recs)
+  IN IF j # "ok" THEN j
+     ELSE IF f.head.moltype # m.moltype \/ f.head.nrexcl # m.nrexcl THEN "moleculetype-line-differs"
+     ELSE IF ReadDefs(f.pro) # CanonDefs(m.defs) THEN "define-prologue-differs"
+     ELSE "ok"
+
+(* writing is an observation: the molecule is the same afterwards and a second write gives the same text *)
+Repeatable(m, recs, again) ==
+  IF again.mol # m THEN "writing-changed-the-molecule"
+  ELSE IF again.recs # recs THEN "second-write-differs"
+  ELSE "ok"
+
 -----------------------------------------------------------------------------
 (* TAB model: Init ranges over the bounded domain, Eval computes the outputs *)
 CONSTANTS KeySeqs,    \* node orders tried: set of sequences of distinct keys
@@ -205,7 +195,9 @@ CONSTANTS KeySeqs,    \* node orders tried: set of sequences of distinct keys
           AtomTab,    \* key -> <<atype, resid, resname, atomname, cg, charge, mass>>
           CMPats,     \* presence of charge / mass: set of sequences of [c, m] applied cyclically along the node order
           Pool,       \* interaction templates; `at` holds POSITIONS in the node order, replaced by the keys there
-          MaxInter
+          MaxInter,
+          TokInt,     \* token -> the integer it denotes (resid, charge_group columns of AtomTab)
+          TokDec      \* token -> the decimal number it denotes, in units of 10^-6 (charge, mass columns of AtomTab)
 
 VARIABLES mol, out
 vars == <<mol, out>>
@@ -228,8 +220,19 @@ Init == /\ \E ks \in KeySeqs : \E aids \in [DOMAIN ks -> AidVals] : \E pat \in C
              \E s \in SeqsUpTo(Applicable(Len(ks)), MaxInter) : mol = Build(ks, aids, pat, s)
         /\ out = [done |-> FALSE]
 
+\* the numeric reading of the [ atoms ] lines of a record sequence (the harness does this for a real text)
+TabHead == [moltype |-> "verif", nrexcl |-> "1", nrexcl_n |-> 1]
+NumOfRecs(recs) ==
+  LET at == SelectSeq(recs, LAMBDA r : r.k = "atom")
+  IN [i \in DOMAIN at |-> [ok |-> TRUE, resid |-> TokInt[at[i].p[2]], cg |-> TokInt[at[i].p[5]],
+                           q |-> IF Len(at[i].p) >= 6 THEN [has |-> TRUE, v |-> TokDec[at[i].p[6]]] ELSE NoNum,
+                           m |-> IF Len(at[i].p) >= 7 THEN [has |-> TRUE, v |-> TokDec[at[i].p[7]]] ELSE NoNum]]
+\* what read_itp must store for the text Write(mol)
+ReaderBlock(recs) == BlockOf(DescOfRecs(TabHead, recs, NumOfRecs(recs)))
+
 Eval == /\ ~out.done
-        /\ out' = [done |-> TRUE, recs |-> Write(mol), verdict |-> Judge(mol, Write(mol))]
+        /\ out' = [done |-> TRUE, recs |-> Write(mol), verdict |-> Judge(mol, Write(mol)),
+                   rd |-> ReaderBlock(Write(mol))]
         /\ UNCHANGED mol
 
 Spec == Init /\ [][Eval]_vars
@@ -242,6 +245,19 @@ Numbered       == out.done => ReadMol(out.recs).numbered /\ ~ReadMol(out.recs).b
 NothingLost    == out.done =>
                     /\ Len(SelectSeq(out.recs, LAMBDA r : r.k = "atom")) = Len(mol.nodes)
                     /\ Len(SelectSeq(out.recs, LAMBDA r : r.k = "inter")) = Len(mol.inter)
+\* the operational model of the second reader agrees with the declarative description of the same records
+ReaderModelAgrees == out.done => AgreeVerdict(TabHead, out.recs, NumOfRecs(out.recs), out.rd) = "ok"
+\* ... and therefore states the molecule: atoms in Canon order (tokens), every interaction of Canon once
+ReaderStatesMolecule ==
+  out.done /\ Expressible(mol) =>
+     LET d == DescOfBlock(out.rd)
+         c == Canon(mol)
+     IN /\ [i \in DOMAIN d.atoms |-> <<d.atoms[i].atype, d.atoms[i].resname, d.atoms[i].name>>]
+             = [i \in DOMAIN c.atoms |-> <<c.atoms[i][1], c.atoms[i][3], c.atoms[i][4]>>]
+        /\ BagOf([i \in DOMAIN d.inters |-> [sec |-> d.inters[i].sec, a |-> d.inters[i].a, p |-> d.inters[i].p,
+                                              g |-> IF d.inters[i].cond = "none" THEN <<>>
+                                                    ELSE <<[kind |-> d.inters[i].cond, name |-> d.inters[i].tag]>>]])
+             = c.inters
 GuardsBalanced == out.done =>
                     Len(SelectSeq(out.recs, LAMBDA r : r.k \in {"ifdef", "ifndef"}))
                       = Len(SelectSeq(out.recs, LAMBDA r : r.k = "endif"))
